@@ -19,7 +19,7 @@ CLAIMED = {
    technique=T, ref="4/C04"),
  "C05": dict(
    text="Proof (partial). Leaves with full functional contracts: Term.Equal (all 7 implementations against one interface contract), Predicate.Equal/Match/Clone, FactSet.Insert/InsertAll (set semantics, no-growth => subset), advanceIndexes (lexicographic successor with carry), MatchedVariables Insert/Complete/Clone, World AddFact/AddRule/ResetRules/Clone. Join soundness: the rule-application goroutine is proved to send only bindings that unify every variable position of every body predicate with the fact chosen for it (first occurrence binds, later occurrences passed Term.Equal), with matching arity and name. Fixpoint step: a nil verdict is sent only when an iteration added no fact.",
-   note="Rule.Apply, combine$1, World.Run/Run$1 and QueryRule are also under contract for well-formedness and frames (the source fact set is never written; new facts only grow). Not decided: completeness of the enumeration (every matching combination is produced - a statement over the whole sequence of channel values, which the producer/consumer rule does not carry), that expressions filter exactly (Evaluate's full semantics), and minimality of the model.",
+   note="Rule.Apply, combine$1, World.Run/Run$1 and QueryRule are also under contract for well-formedness and frames (the source fact set is never written; new facts only grow). Not decided: completeness of the enumeration (every matching combination is produced - a statement over the whole sequence of channel values, which the producer/consumer rule does not carry; the thorough tier cross-checks it on the real code against a brute-force reference over a small corpus), that expressions filter exactly (Evaluate's full semantics), and minimality of the model.",
    technique=T, ref="4/C05"),
  "C06": dict(
    text="Proof: every Eval of the operator table, Evaluate, the evaluation stack and the symbol-table functions they use are under contract; each row of the table is an ensures clause discharged for all operand values (64-bit wrap modelled exactly), together with every panic site (nil, index, type assertion, division, unhashable map key) in those functions. All 20 operator implementations are also verified against the interface-method contracts used by Evaluate.",
@@ -31,7 +31,7 @@ CLAIMED = {
    technique=T, ref="4/C07"),
  "C08": dict(
    text="Proof (partial): Append and Seal are proved to write nothing that existed before the call (strict frame: every store, map update, in-place append and callee effect is an obligation against 'modifies nothing'), SymbolTable.Clone is proved to own a fresh backing array, and the new token's envelope is proved to carry the parent's signed blocks unchanged.",
-   note="Also proved: CreateBlock hands the block builder a private clone of the symbol table, block-builder methods write only builder-owned memory, Build returns a block that shares no array with the builder, GetBlockID and Serialize write nothing, Authorize writes only the authorizer. Printing (Biscuit.String/Code, Block.String/Code and the datalog debugger) is proved read-only.",
+   note="Also proved: Append refuses a block whose symbol table overlaps the token's; CreateBlock hands the block builder a private clone of the symbol table, block-builder methods write only builder-owned memory, Build returns a block that shares no array with the builder, GetBlockID and Serialize write nothing, Authorize writes only the authorizer. Printing (Biscuit.String/Code, Block.String/Code and the datalog debugger) is proved read-only.",
    technique=T, ref="4/C08"),
  "C09": dict(
    text="Proof (partial): Seal is proved to keep the envelope (same authority block and signed blocks, same root key id), to copy block contents and symbols unchanged, to replace the proof by a signature of exactly the seal payload of the last block under the held next secret (so the closing proof verifies whenever the parent's did: seal_verifies), and both Seal and Append are proved to refuse a token without a next secret (sealed) with an error and no token. The lemma same_envelope_same_chain (proved from the definitions) turns 'same envelope' into 'the chain verifies under the same root key'; with authorizerFor's accept <=> chain-and-proof contract the sealed token is accepted exactly when its parent was.",
@@ -43,7 +43,7 @@ CLAIMED = {
    technique=T, ref="4/C10"),
  "C11": dict(
    text="Proof (producer/consumer rule): the goroutine bodies combine$1 and World.Run$1 are under contract with channel clauses (every sent value satisfies the channel invariant, nothing is sent after a final value, at most one verdict, channel closed on return); Rule.Apply and World.Run are proved against them, with a stranding obligation at every return (the producer is known to have finished, or the buffer covers what it may still send). World.Run's nil verdict is proved to be sent only when an iteration added nothing and the fact count is below the limit; limit plumbing: WithWorldOptions/NewVerifier/AuthorizerFor/Authorizer are proved to hand the caller's options to every world.",
-   note="Interleavings are not modelled: a goroutine body is verified as a sequential function and the consumer sees its effects only at receives (sound for the clauses used: they talk about sent values and monotone state). Wall-clock behaviour of the deadline is context.WithTimeout's assumed contract. Authorize and Query are proved to return the run error (a nil result implies the fact count is below the limit).",
+   note="Interleavings are not modelled: a goroutine body is verified as a sequential function and the consumer sees its effects only at receives (sound for the clauses used: they talk about sent values and monotone state). Wall-clock behaviour of the deadline is context.WithTimeout's assumed contract. Authorize and Query are proved to return an error when the run fails (a nil result implies the fact count is below the limit); that the error keeps its identity (errors.Is with the exported sentinel) on its way through Authorize is not expressible as a postcondition and is cross-checked on the real code by the thorough tier only.",
    technique=T, ref="4/C11"),
  "C13": dict(
    text="Proof: Reset is proved to install fresh clones of the base world and base symbol table (same facts, rules, limits, symbols) with empty check and policy lists; Authorize, Query, AddFact, AddRule, AddCheck, AddPolicy are proved (strict write frames) never to write the base world, the base symbol table or their visible contents; the authorizer invariant (working state separate from base state and from the token's own arrays) is proved to be established by the constructors and preserved by every method under contract.",
@@ -66,7 +66,7 @@ CLAIMED = {
    note="Not decided: equivalence of the restored authorizer with the original (a statement over two authorizers and a serialisation in between; each direction is under the row-by-row converter contracts of C07, and protobuf is assumed). An unknown policy kind cannot be loaded as allow or deny: every loaded policy's kind is proved to be the decoded kind.",
    technique=T, ref="4/C18"),
  "C19": dict(
-   text="Proof (partial) by strict write frames instead of schedule exploration: authorizerFor, Append and Seal are proved to perform no write to memory that existed before the call (including in-place appends into spare capacity of shared slices), and SymbolTable.Clone is proved to own its capacity; without writes to shared locations no interleaving can race on them.",
+   text="Proof by strict write frames instead of schedule exploration: EVERY function under contract (about 250: datalog engine and expression evaluation, converters, token construction, Append, Seal, signature verification, builders, authorizer, printing, parser conversion) is proved to write only what its modifies clause lists - for everything a shared token can reach that is 'nothing that existed before the call' (including in-place appends into spare capacity of shared slices and package-level variables) - and SymbolTable.Clone is proved to own its capacity; without writes to shared locations no interleaving can race on them.",
    note="Also proved with strict frames: Authorize and Query write only the authorizer's own working state (never the token, never the base state), GetBlockID, Serialize, RevocationIds, CreateBlock and all printing functions write nothing that existed before the call, the block builder writes only builder-owned memory. Sharing a parser.Parser is an assumption about participle. Assumed: library calls on shared read-only arguments are safe for concurrent use.",
    technique=T, ref="4/C19"),
  "C20": dict(
